@@ -51,11 +51,16 @@ EXPLANATION = (
     'R12: the entry `default-options set` appends per requested option is the template <requested key> + `=` + <requested value as validate_value returns it>, '
     'with no text-changing str method, slice or operator on the way (modulo str()).  R13 (must-flow): where add/rm sources joins a string the target already has '
     '(a `str` runtime value, the value of a StringNode argument) onto a base directory, that base depends on the target parameter.  '
+    'R13 also: such a joined path goes through a normaliser that collapses `..` (normpath / abspath / realpath / .resolve()) before it is compared (== / in) with the requested file.  '
+    'Normal forms added in round 13: `with self.<@contextmanager generator>(..)` in the printer reads as prologue; body; epilogue (an unread one ends undecided); '
+    'visit_ParenthesizedNode is a decision table over the level of the inner expression; R9 classifies every local along the path as text / not text / unread (constant tables read); '
+    'R13 fuses `for .. in <generator closure>()` with the generator body; R3 reads the line table written from terminator positions, named key functions with locals and Enum-member action tags; '
+    'R6 follows the keyword table and the operation into an extracted method; R2 reads the stripped prefix length from a constant table indexed by the token id.  '
     'R4 reads functions in a normal form: statement-level calls of small procedures of the module/class are inlined, loops over a constant tuple of '
     'callables/records are unrolled; R2/R3 read the lexer tables through display splices, module constants and single-return builder helpers.  '
     'Does NOT decide: what validate_value returns for a requested value, nor how kwargs set converts values (MType*.new_node: value level); that the target-dependent base '
     'directory of R13 is the *right* directory (only that it is not the same for every target); against which directory a *requested* file name is resolved; against which directory a files() object is resolved when sources are listed (nodes_to_pretty_filelist / IntrospectionFile.to_abs_path: value level); which function calls forward data in the dataflow graph (is_ignored_edge); that an operation unsupported for a keyword type (add on a str/bool keyword, remove on an absent keyword) leaves the call unchanged; '
-    'names generated by target_add being valid identifiers; CRLF preservation; dict-form default_options; which node of a dataflow path gives the base directory of a relative source (get_relto), whether option keys need regex escaping, nor that the dataflow DAG selects the right node, nor add/remove round trips, nor printing of statements other than expressions.')
+    'names generated by target_add being valid identifiers; CRLF preservation; dict-form default_options; which node of a dataflow path gives the base directory of a relative source (get_relto), whether option keys need regex escaping, nor that the dataflow DAG selects the right node (e.g. which operand attributes of a node get dataflow edges: edges from the branches of a ternary make an array inside ONE branch the node that is extended - seed r7-2, a choice among candidates, value level), nor add/remove round trips, nor printing of statements other than expressions.')
 ASSUMPTIONS = ['str.translate, str.splitlines, str.split and codecs unicode_escape behave as documented in the Python library reference',
                'BaseNode.accept dispatches to visit_<ClassName> of the visitor (checked as an anchor)',
                '+ on int/str/list/dict, * on int, and/or are associative in the Meson language (Syntax.md); a+(b-c) == (a+b)-c on integers']
